@@ -69,8 +69,14 @@ func NewBundleDescriptorFromBundle(b bpv7.Bundle, store *storage.Store) BundleDe
 // Sync this BundleDescriptor to the store.
 func (descriptor BundleDescriptor) Sync() error {
 	if !descriptor.store.KnowsBundle(descriptor.Id.Scrub()) {
-		return descriptor.store.Push(*descriptor.bndl)
-	} else if bi, err := descriptor.store.QueryId(descriptor.Id.Scrub()); err != nil {
+		// A bundle pushed together with constraints also gets its properties stored right away;
+		// otherwise the reception timestamp is lost if no further Sync follows (dispatching deferred).
+		if err := descriptor.store.Push(*descriptor.bndl); err != nil || len(descriptor.Constraints) == 0 {
+			return err
+		}
+	}
+
+	if bi, err := descriptor.store.QueryId(descriptor.Id.Scrub()); err != nil {
 		return err
 	} else if len(descriptor.Constraints) == 0 {
 		return descriptor.store.Delete(descriptor.Id)
